@@ -277,6 +277,17 @@ func (idx *IVFPQIndex) Trained() bool {
 // Returns:
 //   - error: Returns error if not trained or dimension mismatch
 func (idx *IVFPQIndex) Add(vector VectorNode) error {
+	// Re-adding a soft-deleted ID is an update (remove + add): compact first so
+	// that the stale entry and its tombstone cannot shadow the new vector.
+	idx.mu.RLock()
+	stale := idx.deletedNodes.Contains(vector.ID())
+	idx.mu.RUnlock()
+	if stale {
+		if err := idx.Flush(); err != nil {
+			return err
+		}
+	}
+
 	idx.mu.Lock()
 	defer idx.mu.Unlock()
 
